@@ -11,6 +11,8 @@ import RoaringModel.Safe
 import RoaringModel.Lemmas.SafeLemmas
 import RoaringModel.Lemmas.FidelityFmt
 import RoaringModel.Props.C10
+import RoaringModel.SafeCodec
+import RoaringModel.Lemmas.SafeCodecLemmas
 /-!
 # C16 — public operations are total: only the documented panics (property theorems)
 
@@ -36,6 +38,11 @@ at the documented panics:
   crate-private functions (`ArrayStore::remove_smallest/remove_biggest`: `n ≤ len`, discharged at the public entry
   points in `C16_safe_removeSmallest/Biggest`) and the `u64` sums of a treemap holding all `2^64` values
   (`C16_safe_treemap_len_iff`, `C16_treemap_len_2p64_observation`).
+* **codec area** (last section; predicates in `RoaringModel/SafeCodec.lean`): `deserialize_from_impl` on arbitrary input
+  bytes over any reader (`C16_safe_deserialize*`), `intersection_with_serialized_unchecked` on arbitrary bytes
+  (`C16_safe_interSer`), `from_lsb0_bytes` with its store constructors on the documented domain (`C16_safe_fromLsb0`,
+  `C16_safe_lsb0_store`), the treemap `serialized_size` / `serialize_into` / `deserialize_from`
+  (`C16_safe_treemap_serialize`, `C16_safe_treemap_deserialize*`).
 -/
 namespace Roaring.C16
 open Roaring Roaring.MiscLemmas
@@ -654,5 +661,135 @@ example : Treemap.Safe_select [(0, exB), (4294967295, exB)] 65540 := by
   intro p hp
   simp only [List.mem_cons, List.not_mem_nil, or_false] at hp
   rcases hp with rfl | rfl <;> exact ⟨by decide, exB_wf⟩
+
+/-! ## Codec area (SafeCodec.lean)
+
+The decoders, the intersection with a serialized bitmap, `from_lsb0_bytes` and the treemap codec: every `+`, `-`, `*`,
+`<<`, `>>`, index / slice range and narrowing cast of these functions, listed with `file:line` in
+`RoaringModel/SafeCodec.lean`.  The decoder theorems quantify over ARBITRARY input bytes (no conformance hypothesis):
+the arithmetic executed before the decoder returns — with a value or with an `Err` — is panic-free on every input.
+
+Running examples: `runStream` (a conformant stream with one run chunk: cookie `12347`, run bitmap `[1]`, one
+description, no offset table, the run `10..=14`), `arrStream` (two array chunks, cookie `12346`, with offsets). -/
+
+/-- cookie `12347 | (1-1) << 16`, run bitmap `0b1`, description `(key 0, card-1 = 4)`, `runs = 1`, run `(10, 4)` -/
+def runStream : List Nat := [59, 48, 0, 0,  1,  0, 0, 4, 0,  1, 0,  10, 0, 4, 0]
+
+/-- the serialization of `{1, 2, 3} ∪ {5·65536 + 7}` -/
+def arrStream : List Nat := Bitmap.serialize [⟨0, .array [1, 2, 3]⟩, ⟨5, .array [7]⟩]
+
+example : deserialize true true runStream = .ok ([⟨0, .array [10, 11, 12, 13, 14]⟩], []) := by rfl
+
+/-- **`deserialize_from` / `deserialize_unchecked_from` (`deserialize_from_impl`, bitmap/serialization.rs:170-271)** on
+    ANY byte string, in both build profiles: `(cookie >> 16) + 1`, `(size + 7) / 8`, `size * 4`, `u64::from(card) + 1`,
+    `bm[i / 8] & (1 << (i % 8))`, `cardinality as usize`, the `usize` sum of the run lengths, every
+    `Store::insert_range` of the run replay on the evolving store (array_store/mod.rs:89-107, bitmap_store.rs:116-161),
+    the `u64` sum of `BitmapStore::try_from`, `ensure_correct_store` — none overflows, indexes out of range or loses
+    bits in a cast. -/
+theorem C16_safe_deserialize (chk dbg : Bool) (bs : List Nat) (hb : ∀ x ∈ bs, x < 256) :
+    Safe_deserialize readN chk dbg bs := safe_deserialize readerOK_readN chk dbg bs hb
+example : Safe_deserialize readN true true runStream := C16_safe_deserialize _ _ _ (by decide)
+example : Safe_deserialize readN false false (arrStream.take 21) := C16_safe_deserialize _ _ _ (by decide)
+/-- the predicates are evaluable on concrete streams (this is what the driver does) -/
+example : Safe_deserialize readN true true runStream ∧ Safe_deserialize readN true false arrStream := by decide +kernel
+/-- teeth: a run-flag lookup for container 8 in a 1-byte run bitmap is out of range; replaying a run into an array
+    store that is not sorted underflows `… + 1 - dropped.len()`; a cardinality field that is not a `u16` -/
+example : ¬ Safe_descr (some [1]) 8 4 ∧ ¬ Safe_replayRuns (.array [5, 5, 5, 4]) [(4, 2)]
+    ∧ ¬ Safe_descr none 0 18446744073709551615 := by decide
+
+/-- … over every reader that honours the `read_exact` contract (`ReaderOK`: a successful `read_exact(n)` returns `n`
+    bytes), from every reader state; instances: the slice reader, the `Cursor` of `SerOps.lean` and … -/
+theorem C16_safe_deserialize_reader {σ : Type} (Good : σ → Prop) (R : Nat → Parser σ (List Nat))
+    (hR : ReaderOK Good R) (chk dbg : Bool) (s : σ) (hs : Good s) : Safe_deserialize R chk dbg s :=
+  safe_deserialize hR chk dbg s hs
+
+/-- … the scheduled reader of `IO.lean` (C14): any chunking of the stream, any number of `Interrupted` results. -/
+theorem C16_safe_deserialize_sched (chk dbg : Bool) (data : List Nat) (hb : ∀ x ∈ data, x < 256) (sched : List IoEv) :
+    Safe_deserialize SReader.readExact chk dbg ⟨data, sched⟩ :=
+  safe_deserialize readerOK_sched chk dbg ⟨data, sched⟩ hb
+example : Safe_deserialize SReader.readExact true true ⟨runStream, [.chunk 3, .intr, .chunk 1]⟩ :=
+  C16_safe_deserialize_sched _ _ _ (by decide) _
+
+/-- **`intersection_with_serialized_unchecked` (bitmap/ops_with_serialized.rs:44-277)** for any receiver and ANY bytes
+    in a `Cursor` (`bytes.len() < 2^63`: a Rust slice / `Vec` never exceeds `isize::MAX` bytes): the header arithmetic,
+    `offsets[i]`, `descriptions[i]`, `bm[i / 8]`, `u64::from(len_minus_one) + 1`, the chunk readers, and on the
+    sequential path the skip sizes `size_of::<u16>() * 2 * runs as usize`, `size_of::<u16>() * cardinality as usize`,
+    `size_of::<u64>() * BITMAP_LENGTH`, their `as i64` casts and the resulting cursor position.  (The in-memory
+    `other_container &= container` is outside these predicates, see SafeCodec.lean.) -/
+theorem C16_safe_interSer (dbg : Bool) (a : Bitmap) (bytes : List Nat) (hb : ∀ x ∈ bytes, x < 256)
+    (hlen : bytes.length < 9223372036854775808) : Safe_interSer dbg a bytes := safe_interSer dbg a bytes hb hlen
+/-- sequential path (run cookie, fewer than 4 containers), once reading and once skipping the run chunk -/
+example : Safe_interSer true [⟨0, .array [12]⟩] runStream ∧ Safe_interSer true exB.tail runStream :=
+  ⟨C16_safe_interSer _ _ _ (by decide) (by decide), C16_safe_interSer _ _ _ (by decide) (by decide)⟩
+/-- offset path -/
+example : Safe_interSer false exB arrStream := C16_safe_interSer _ _ _ (by decide) (by decide)
+example : Safe_interSer true [⟨0, .array [12]⟩] runStream ∧ Safe_interSer false exB arrStream := by decide +kernel
+/-- teeth: a skip from a cursor position at the very end of the `u64` range; an offset table shorter than the
+    descriptions -/
+example : ¬ Safe_seekCur ⟨[], 18446744073709551615⟩ 8192
+    ∧ ¬ Safe_interOffsets true ⟨1, true, none, [(0, 0)], []⟩ [⟨0, .array [1]⟩] ⟨[], 0⟩ := by decide
+
+/-- **`from_lsb0_bytes` (bitmap/inherent.rs:87-171) on the documented domain `offset + 8·len ≤ 2^32`**, with
+    `Container::from_lsb0_bytes` → `Store::from_lsb0_bytes` (store/mod.rs:54-81) → `ArrayStore::from_lsb0_bytes`
+    (array_store/mod.rs:57-82) / `BitmapStore::from_lsb0_bytes_unchecked` (bitmap_store.rs:44-88): the shifts of
+    `shift_bytes` (`byte << amount`, `8 - amount`, `byte >> (8 - amount)` with `amount = offset % 8 ∈ 1..=7`),
+    `offset - shift as u32`, `len_bits - 1`, `>> 16`, `end_container_inc + 1 - start_container`,
+    `end_byte - start_offset`, the three `split_at`s, the three `as u16` key casts (lossless),
+    `start_container += 1`; at store level the `assert!`s, the `u64` bit count, `(byte_offset + index * 8) * 8`,
+    `bit_index as u32`, `(trailing_zeros + bit_index as u32) as u16` (lossless), `bytes.len() - remainder.len()`,
+    `dst[byte_offset..][..bytes.len()]`. -/
+theorem C16_safe_fromLsb0 (dbg : Bool) (off : Nat) (bytes : List Nat) (hb : ∀ b ∈ bytes, b < 256)
+    (hfit : off + 8 * bytes.length ≤ 4294967296) : Lsb0.Safe_fromLsb0 dbg off bytes :=
+  Lsb0.safe_fromLsb0 dbg off bytes hb hfit
+/-- the doc-test of the crate (`offset = 3`, unaligned), and the last byte of the universe -/
+example : Lsb0.Safe_fromLsb0 true 3 [5, 2, 0, 128] ∧ Lsb0.Safe_fromLsb0 true 4294967288 [128] :=
+  ⟨C16_safe_fromLsb0 _ _ _ (by decide) (by decide), C16_safe_fromLsb0 _ _ _ (by decide) (by decide)⟩
+example : Lsb0.Safe_fromLsb0 true 65531 [255, 255, 1] := by decide +kernel
+/-- teeth: `shift_bytes` with `amount = 0` would evaluate `byte >> 8` on a `u8`; one byte past the domain the
+    predicate holds only vacuously (documented `expect` panic), while a store-level call that does not fit its chunk
+    fails the `assert!` -/
+example : ¬ Lsb0.Safe_shiftBytes [1] 0 ∧ ¬ Lsb0.Safe_storeFromLsb0 true [1] 8192
+    ∧ ¬ Lsb0.Safe_arrWords 8185 0 [9223372036854775808] := by decide +kernel
+
+/-- the store-level constructor alone, for every piece that fits its chunk (`byte_offset + len ≤ 8192`, the
+    `assert!` of store/mod.rs:55 — the callers' obligation, discharged in `C16_safe_fromLsb0`). -/
+theorem C16_safe_lsb0_store (dbg : Bool) (bytes : List Nat) (bo : Nat) (hb : ∀ b ∈ bytes, b < 256)
+    (hfit : bo + bytes.length ≤ 8192) : Lsb0.Safe_storeFromLsb0 dbg bytes bo :=
+  Lsb0.safe_storeFromLsb0 dbg bytes bo hb hfit
+example : Lsb0.Safe_storeFromLsb0 true [255, 0, 0, 0, 0, 0, 0, 0, 129] 8183 :=
+  C16_safe_lsb0_store _ _ _ (by decide) (by decide)
+
+/-- **`RoaringTreemap::serialized_size` / `serialize_into` (treemap/serialization.rs:22-52)** for well-formed partitions
+    (at most `2^32` of them — the keys are distinct `u32`s): the `usize` fold `acc + size_of::<u32>() +
+    bitmap.serialized_size()` (`≤ 8 + 2^32 · (4 + 8 + 65536 · 8200) < 2^62`), `self.map.len() as u64`, and per
+    partition the 32-bit `serialized_size` / `serialize_into` (`C16_safe_serialize`). -/
+theorem C16_safe_treemap_serialize (t : Treemap) (h : Treemap.PartsWF t) (hl : t.length ≤ 4294967296) :
+    Treemap.Safe_serializedSize t ∧ Treemap.Safe_serialize t :=
+  ⟨Treemap.safe_serializedSize t h hl, Treemap.safe_serialize t h hl⟩
+example : Treemap.Safe_serializedSize [(0, exB), (4294967295, exB)] ∧ Treemap.Safe_serialize [(0, exB), (4294967295, exB)] := by
+  refine C16_safe_treemap_serialize _ ?_ (by decide)
+  intro p hp
+  simp only [List.mem_cons, List.not_mem_nil, or_false] at hp
+  rcases hp with rfl | rfl <;> exact ⟨by decide, exB_wf⟩
+/-- teeth: a key that is not a `u32`; a partition with an empty container (`(container.len() - 1) as u16`) -/
+example : ¬ Treemap.Safe_serialize [(4294967296, [])] ∧ ¬ Treemap.Safe_serialize [(0, [⟨0, .array []⟩])] := by decide
+
+/-- **`RoaringTreemap::deserialize_from` / `deserialize_unchecked_from` (treemap/serialization.rs:71-119)** on ANY byte
+    string: the `u64` count, the loop `for _ in 0..size`, the `u32` keys, and inside every iteration the whole 32-bit
+    decoder (`C16_safe_deserialize`) from the reader state the previous iterations left. -/
+theorem C16_safe_treemap_deserialize (chk dbg : Bool) (bs : List Nat) (hb : ∀ x ∈ bs, x < 256) :
+    Treemap.Safe_deserialize readN chk dbg bs := Treemap.safe_deserialize readerOK_readN chk dbg bs hb
+/-- two partitions (keys 0 and 7), the second one a run stream; and a count of `2^64 - 1` over a 12-byte input -/
+example : Treemap.Safe_deserialize readN true true
+      ([2, 0, 0, 0, 0, 0, 0, 0] ++ [0, 0, 0, 0] ++ arrStream ++ [7, 0, 0, 0] ++ runStream)
+    ∧ Treemap.Safe_deserialize readN true true ([255, 255, 255, 255, 255, 255, 255, 255] ++ [1, 0, 0, 0]) :=
+  ⟨C16_safe_treemap_deserialize _ _ _ (by decide), C16_safe_treemap_deserialize _ _ _ (by decide)⟩
+example : Treemap.Safe_deserialize readN true true
+    ([2, 0, 0, 0, 0, 0, 0, 0] ++ [0, 0, 0, 0] ++ arrStream ++ [7, 0, 0, 0] ++ runStream) := by decide +kernel
+
+/-- … over every reader that honours `read_exact`, e.g. the scheduled reader. -/
+theorem C16_safe_treemap_deserialize_reader {σ : Type} (Good : σ → Prop) (R : Nat → Parser σ (List Nat))
+    (hR : ReaderOK Good R) (chk dbg : Bool) (s : σ) (hs : Good s) : Treemap.Safe_deserialize R chk dbg s :=
+  Treemap.safe_deserialize hR chk dbg s hs
 
 end Roaring.C16
